@@ -615,7 +615,7 @@ Theorem tw_roots_immutable : forall now sender msg s s',
 Proof.
   intros now sender [id st en dn lm|a ok|] s s' E; cbn in E;
     unfold tw_update_stage_config, tw_update_admins, tw_freeze in E.
-  - guards. destruct (nth_error (tw_stages s) (N.to_nat id)); [|discriminate].
+  - guards. destruct (if id <? N.of_nat (length (tw_stages s)) then nth_error (tw_stages s) (N.to_nat id) else None); [|discriminate].
     destruct (validate_update _); [|discriminate]. cbn in E. inversion E. reflexivity.
   - guards. inversion E. reflexivity.
   - guards. inversion E. reflexivity.
@@ -856,3 +856,36 @@ Proof. intros H Hl. exact (has_member_sound 16 H Hl). Qed.
 Lemma malformed_is_error_16 : forall (H : list N -> list N) root m p h,
   In h p -> hex_ok 16 h = false -> has_member 16 H root m p = Err.
 Proof. intros H. exact (malformed_is_error 16 H). Qed.
+
+(* ---------- a root string containing an upper-case hex letter can never match ---------- *)
+Lemma hex_digit_not_upper : forall d, hex_digit d < 65 \/ 70 < hex_digit d.
+Proof.
+  intro d. unfold hex_digit. destruct (d <? 10) eqn:E.
+  - apply N.ltb_lt in E. left. lia.
+  - apply N.ltb_ge in E. right. lia.
+Qed.
+Lemma hex_encode_not_upper : forall b c, In c (hex_encode b) -> c < 65 \/ 70 < c.
+Proof.
+  induction b as [|x b IH]; intros c Hc; [contradiction|].
+  cbn [hex_encode] in Hc. destruct Hc as [Hc|[Hc|Hc]].
+  - rewrite <- Hc. apply hex_digit_not_upper.
+  - rewrite <- Hc. apply hex_digit_not_upper.
+  - apply IH. exact Hc.
+Qed.
+Theorem uppercase_root_never_matches : forall L H root m p c,
+  In c root -> 65 <= c <= 70 -> has_member L H root m p <> Ok true.
+Proof.
+  intros L H root m p c Hin Hc E. apply has_member_inv in E. destruct E as (bs & _ & Eb).
+  symmetry in Eb. apply str_eqb_eq in Eb. rewrite Eb in Hin.
+  apply hex_encode_not_upper in Hin. lia.
+Qed.
+(* instantiate accepts such a root (64 times 'A'), so "every listed entry is accepted
+   against the stored root" fails for roots supplied in upper case *)
+Theorem complete_any_accepted_root_refuted :
+  exists root : list N,
+    verify_merkle_root 32 root = Ok tt /\
+    forall (H : list N -> list N) m p, has_member 32 H root m p <> Ok true.
+Proof.
+  exists (repeat 65 64). split; [vm_compute; reflexivity|].
+  intros H m p. apply uppercase_root_never_matches with 65; [left; reflexivity|lia].
+Qed.
